@@ -420,6 +420,14 @@ func (pp *Prepass) instrWritesIn(fn *ssa.Function, ins ssa.Instruction, ws KeySe
 		ws[pp.elemKey(x.Type().Underlying().(*types.Slice).Elem())] = true
 	case *ssa.MakeChan:
 		ws["G:closed"] = true
+	case *ssa.Send:
+		ws["G:sent"] = true
+	case *ssa.Select:
+		for _, s := range x.States {
+			if s.Dir == types.SendOnly {
+				ws["G:sent"] = true
+			}
+		}
 	case *ssa.Slice:
 		if pt, ok := x.X.Type().Underlying().(*types.Pointer); ok {
 			if at, ok := pt.Elem().Underlying().(*types.Array); ok {
